@@ -189,9 +189,16 @@ func c06Exec(c fw.Case) *fw.Result {
 			cls := c06CutClass(f, lay, cut)
 			classes[cls] = true
 			for _, procs := range []int{1, 3} {
-				sr := pbfScan(mon.NewReader(data[:cut]), procs, false, nil, nil)
+				// every cut is read once from a reader that reports io.EOF with a separate
+				// empty Read and once from one that returns it together with the last bytes
+				rd := mon.NewReader(data[:cut])
+				rd.EagerEOF = (cut+int64(procs/2))%2 == 1
+				sr := pbfScan(rd, procs, false, nil, nil)
 				res.Event(int64(len(sr.Objs)) + 1)
 				key := "C06/cut/" + cls
+				if rd.EagerEOF {
+					key = "C06/cut-eager-eof/" + cls
+				}
 				if d := pbfw.CompareSeq(want, sr.Objs); d != "" {
 					res.Violatef(key+"/objects", "cut at byte %d of %d (%s, %d decoders): %s", cut, len(data), cls, procs, d)
 				}
